@@ -219,6 +219,19 @@ var durSlots = []durSlot{
 		}
 		return s.ResampleFor, true
 	}, true},
+	{"cq-resample-every-equals-interval", func(d string) string {
+		return "CREATE CONTINUOUS QUERY cq ON db RESAMPLE EVERY " + d + " FOR 9223372036854775807ns BEGIN SELECT mean(v) INTO t FROM m GROUP BY time(" + d + ") END"
+	}, func(st influxql.Statement) (time.Duration, bool) {
+		s := cqSrc(st)
+		if s == nil {
+			return 0, false
+		}
+		iv, err := s.Source.GroupByInterval()
+		if err != nil || iv != s.ResampleEvery {
+			return 0, false
+		}
+		return s.ResampleEvery, true
+	}, true},
 	{"cq-resample-every-then-for", func(d string) string {
 		return "CREATE CONTINUOUS QUERY cq ON db RESAMPLE EVERY " + d + " FOR 9223372036854775807ns BEGIN SELECT v INTO t FROM m END"
 	}, func(st influxql.Statement) (time.Duration, bool) {
@@ -640,7 +653,7 @@ func decompose(rg *mon.Rng, target *big.Int) []durComp {
 
 func checkC08(c *Ctx) (string, bool, []string) {
 	r := c.R
-	rule := "boundary grid: for every unit spelling and k, n in floor(k*2^63/mult)+{-2..2} (both signs) through ParseDuration and, for non-negative spellings, through 24 statement slots (one of them writes the same spelling four times, twice behind a minus; the same spelling also recurs across the statements of one query, and a literal that was printed is given other values and printed again) (each accepted statement is also printed and read back: same duration), and behind an explicit + or - sign through ParseExpr; multi-component decompositions of targets near k*2^63; random spellings; arbitrary short texts over digits, units, truncated multi-byte units, signs and raw bytes (never a panic; a value only for the sum the text denotes); FormatDuration on boundary and random int64 with round trip. Non-trivial = exact sum differs from 0 and case text distinct."
+	rule := "boundary grid: for every unit spelling and k, n in floor(k*2^63/mult)+{-2..2} (both signs) through ParseDuration and, for non-negative spellings, through 25 statement slots (one of them writes the same spelling four times, twice behind a minus; the same spelling also recurs across the statements of one query, and a literal that was printed is given other values and printed again) (each accepted statement is also printed and read back: same duration), and behind an explicit + or - sign through ParseExpr; multi-component decompositions of targets near k*2^63; random spellings; arbitrary short texts over digits, units, truncated multi-byte units, signs and raw bytes (never a panic; a value only for the sum the text denotes); FormatDuration on boundary and random int64 with round trip. Non-trivial = exact sum differs from 0 and case text distinct."
 	assume := []string{"math/big arithmetic is the reference for the exact sum", "well-formed spelling = optional '-' then (digits unit)+ with units ns,u,µ,ms,s,m,h,d,w"}
 
 	if c.Replay != nil {
